@@ -25,7 +25,7 @@ func init() {
 	Registry["C08"] = Spec{
 		Fn:          c08,
 		Level:       "exploration",
-		Rule:        "the response scripts of C03 (incl. failing ones) are replayed under segmentations of the server byte stream: whole, one byte per read, two pieces at every offset (all offsets for streams <= 600 B, else 96 sampled), random split vectors, all 2^(n-1) splits of short (<= 12 B) responses, with 0..3 virtual read-deadline expiries before each packet, and with every packet split after its first byte / at a random offset by a pause that would expire an armed read deadline; the stream cut after a random byte (server gone) under whole / one-byte / two-piece-near-the-cut / random delivery must fail with the same error class (io.EOF, io.ErrUnexpectedEOF, exception, callback error); read timeouts also expire while a client write is held back by the peer (streamed INSERT, no caller deadline: nothing may time the write out); every run is compared with the executable model (same oracle as C03) and a follow-up Ping must find the connection at a packet boundary. Proto level: the pass-through ColRaw column followed by a String column under whole / one-byte / half / chunked / two-piece delivery; library-encoded blocks and messages (plain and inside each kind of compressed frame) decoded through one-byte, half, data-with-EOF and random-chunk readers must give the values and consumption of the one-shot decode. Non-trivial = >=2 segments that split a field; distinct = (stream, segmentation)",
+		Rule:        "the response scripts of C03 (incl. failing ones) are replayed under segmentations of the server byte stream: [codec level also: String + bulk column blocks (>= 300 KiB of UInt64 / UInt8 / raw UUID data ending the stream) whose last bytes arrive in the same Read call as io.EOF, whole and in two pieces] whole, one byte per read, two pieces at every offset (all offsets for streams <= 600 B, else 96 sampled), random split vectors, all 2^(n-1) splits of short (<= 12 B) responses, with 0..3 virtual read-deadline expiries before each packet, and with every packet split after its first byte / at a random offset by a pause that would expire an armed read deadline; the stream cut after a random byte (server gone) under whole / one-byte / two-piece-near-the-cut / random delivery must fail with the same error class (io.EOF, io.ErrUnexpectedEOF, exception, callback error); read timeouts also expire while a client write is held back by the peer (streamed INSERT, no caller deadline: nothing may time the write out); every run is compared with the executable model (same oracle as C03) and a follow-up Ping must find the connection at a packet boundary. Proto level: the pass-through ColRaw column followed by a String column under whole / one-byte / half / chunked / two-piece delivery; library-encoded blocks and messages (plain and inside each kind of compressed frame) decoded through one-byte, half, data-with-EOF and random-chunk readers must give the values and consumption of the one-shot decode. Non-trivial = >=2 segments that split a field; distinct = (stream, segmentation)",
 		Assumptions: []string{"only read patterns a conforming io.Reader / net.Conn may produce"},
 		MinDistinct: 500,
 	}
@@ -333,6 +333,83 @@ func c08(r *core.Run) {
 			}
 		}
 	}
+	// bulk column data that ends the stream, with the last bytes arriving TOGETHER with io.EOF (a
+	// Read may return n > 0 and an error at once; io.ReadFull treats a filled buffer as success).  The
+	// bulk data is larger than the 128 KiB buffer of proto.NewReader, so the final Read goes through
+	// bufio's direct path and its error is not deferred to a later call.
+	for k := 0; k < r.Pick(12, 60); k++ {
+		ci++
+		if !r.Take(ci) {
+			continue
+		}
+		rng := r.Rand(ci, "bulktail")
+		kind := k % 3
+		ts := []string{"UInt64", "UInt8", "UUID"}[kind]
+		rows := []int{40000 + rng.Intn(5000), 300000 + rng.Intn(50000), 20000 + rng.Intn(3000)}[kind]
+		t0, _ := ref.ParseType("String")
+		t1, _ := ref.ParseType(ts)
+		vs0 := val.GenColumn(rng, t0, rows, val.GenOpt{MaxElem: 2})
+		vs1 := val.GenColumn(rng, t1, rows, val.GenOpt{})
+		var w ref.W
+		if err := ref.EncodeBlock(&w, 54460, &ref.Block{Info: ref.BlockInfo{Bucket: -1}, Rows: rows, Cols: []ref.Col{{Name: "s", Type: "String", Vals: vs0}, {Name: "bulk", Type: ts, Vals: vs1}}}); err != nil {
+			continue
+		}
+		full := w.B
+		mkTarget := func() proto.ColResult {
+			switch kind {
+			case 0:
+				return new(proto.ColUInt64)
+			case 1:
+				return new(proto.ColUInt8)
+			}
+			return &proto.ColRaw{T: proto.ColumnTypeUUID, Size: 16}
+		}
+		decode := func(rd io.Reader) (string, error, string) {
+			str, bulk := new(proto.ColStr), mkTarget()
+			var blk proto.Block
+			var derr error
+			if p := core.Recover(func() {
+				derr = blk.DecodeBlock(proto.NewReader(rd), 54460, proto.Results{{Name: "s", Data: str}, {Name: "bulk", Data: bulk}})
+			}); p != "" {
+				return "", nil, p
+			}
+			if derr != nil {
+				return "", derr, ""
+			}
+			var b proto.Buffer
+			str.EncodeColumn(&b)
+			bulk.(interface{ EncodeColumn(*proto.Buffer) }).EncodeColumn(&b)
+			return fmt.Sprint(core.Hash(b.Buf)), nil, ""
+		}
+		wantHash, werr, wp := decode(bytes.NewReader(full))
+		if werr != nil || wp != "" {
+			r.Inconclusive(fmt.Sprintf("bulk-tail: whole delivery of a reference block fails: %v %s", werr, wp))
+			continue
+		}
+		cutSets := map[string][]int{"whole+eof": nil}
+		for j := 0; j < 6; j++ {
+			o := 1 + rng.Intn(len(full)-1)
+			if j == 0 {
+				o = len(full) - 131072 - rng.Intn(4096) // the tail is just over one bufio buffer
+			}
+			if j == 1 {
+				o = len(full) - 1
+			}
+			cutSets[fmt.Sprintf("two-piece@%d+eof", o)] = []int{o}
+		}
+		for rn, cuts := range cutSets {
+			r.Eval()
+			r.NonTrivial("bulk-tail", ts, rows, rn)
+			r.Count("bulk_tail_data_with_eof_deliveries", 1)
+			got, derr, p := decode(&dataEOFReader{b: full, cuts: cuts})
+			cs := map[string]any{"reader": rn, "rows": rows, "type": ts, "stream_bytes": len(full)}
+			if p != "" {
+				r.Violation("proto-segmentation-panic:bulk-tail", p, cs)
+			} else if derr != nil || got != wantHash {
+				r.Violation("proto-segmentation:bulk-tail:data-with-eof", fmt.Sprintf("String + %s block of %d rows (%d bytes), last bytes delivered together with io.EOF (%s): err=%v, same values=%v; the same bytes from a plain reader decode fine", ts, rows, len(full), rn, derr, got == wantHash), cs)
+			}
+		}
+	}
 	// messages through segmenting readers
 	for _, rev := range revisionRepresentatives() {
 		ci++
@@ -359,6 +436,32 @@ func c08(r *core.Run) {
 			}
 		}
 	}
+}
+
+// dataEOFReader delivers b in the pieces given by cuts (absolute offsets) and returns io.EOF in the
+// same call as the last bytes, as io.Reader permits.
+type dataEOFReader struct {
+	b    []byte
+	cuts []int
+	pos  int
+}
+
+func (d *dataEOFReader) Read(p []byte) (int, error) {
+	if d.pos >= len(d.b) {
+		return 0, io.EOF
+	}
+	end := len(d.b)
+	for _, c := range d.cuts {
+		if c > d.pos && c < end {
+			end = c
+		}
+	}
+	n := copy(p, d.b[d.pos:end])
+	d.pos += n
+	if d.pos == len(d.b) {
+		return n, io.EOF
+	}
+	return n, nil
 }
 
 type chunkReader struct {
